@@ -257,6 +257,20 @@ def targeted_programs(dev):
     h["ops"] = [Rv(C(1234567)), Rv(C(123456780)), Rv(C(715827800)), Rv(C(715827850)), Rv(C(715827801)),
                 Wv("aspirate_well", C(715827800)), Wv("aspirate_well", C(715827850)), Wv("dispense_well", C(715827801)), Wv("dispense_well", C(123456789))]
     progs.append(h)
+    # one long text (33 to 40 characters) that is fine where no limit applies and refused where one does - in this order,
+    # in the other order, and in one call: a text is judged by the field it is given for, never by where it was seen before
+    for n, long in enumerate(("L" * 33, "a rack label of thirty-six characters", "x" * 40)):
+        lws = [gen.mk_plate("plate", 2, 2, 0, 10, [0, 0, 0, 0])]
+        h = gen.header(f"emit/same-text-other-field-{n}", dev, Fraction(1), 950, lws, flags={"comp": False, "norm": False, "robot": False})
+        Wk = lambda fn, **kw: {"op": "emit", "fn": fn, "args": dict({"rack": "R", "pos": I(1), "vol": 10000}, **kw)}
+        Rk = lambda **kw: {"op": "emit", "fn": "reagent_distribution",
+                           "args": dict({"srack": "S", "s1": I(1), "s2": I(8), "drack": "D", "d1": I(1), "d2": I(12), "vol": 20000}, **kw)}
+        h["ops"] = [Wk("aspirate_well", lc=long), Wk("aspirate_well", rack=long), Wk("dispense_well", tube=long), Wk("dispense_well", rackid=long),
+                    Wk("aspirate_well", racktype=long), Wk("aspirate_well", frt=long), Wk("aspirate_well", tube=long, racktype=long),
+                    Wk("dispense_well", lc=long, frt=long), Wk("dispense_well", lc=long, tube=long),
+                    Rk(lc=long), Rk(srack=long), Rk(drack=long), Rk(sid=long), Rk(stype=long), Rk(did=long), Rk(dtype=long), Rk(lc=long, dtype=long),
+                    Wk("aspirate_well", rack=long[:32]), Wk("aspirate_well", rack=long[:32], lc=long)]
+        progs.append(h)
     # few destination wells (also after exclusions): the multi-dispense count depends on volume and max_volume only
     lws = [gen.mk_plate("plate", 2, 2, 0, 10, [0, 0, 0, 0])]
     h = gen.header("emit/multidisp-few-wells", dev, Fraction(1), 950, lws, flags={"comp": False, "norm": False, "robot": False})
